@@ -590,6 +590,116 @@ theorem plot_shows_every_result_once (canon : Bytes → List Result) (rs : List 
     rw [hs']
     exact hdom a l
 
+/-! ### end to end with down-sampling active -/
+
+/-- the points of a series as `timeSeries.iter` hands them to `Downsample` -/
+def toPoints (s : TimeSeries) : List Point := s.pts.map (fun (tv : Nat × F64) => ⟨msToSeconds tv.1, tv.2⟩)
+
+/-- what the property allows `sel` to be for a series with points `pts` and threshold `th`:
+all points when `th = 0` or the series is not longer than `th`; otherwise exactly `th` points
+forming a sublist of `pts` that starts with its first and ends with its last point -/
+def Selected (th : Int) (pts sel : List Point) : Prop :=
+  if th = 0 ∨ th ≥ (pts.length : Int) then sel = pts
+  else (sel.length : Int) = th ∧ sel.Sublist pts ∧ sel.head? = pts.head? ∧ sel.getLast? = pts.getLast?
+
+/-- one selection per series, in the series' order -/
+def SelectedAll (th : Int) : List TimeSeries → List (List Point) → Prop
+  | [], [] => True
+  | s :: ss, sel :: sels => Selected th (toPoints s) sel ∧ SelectedAll th ss sels
+  | _, _ => False
+
+/-- rows of the selections: every selected point of series `j` as a NaN-padded row -/
+def rowsOfSel (n : Nat) : Nat → List (List Point) → List (List F64)
+  | _, [] => []
+  | i, ps :: rest => ps.map (mkRow n i) ++ rowsOfSel n (i+1) rest
+
+theorem aux_rows_selected (store : Store) (hl : Lossless store) (th : Int) (hth : th = 0 ∨ 3 ≤ th) (n : Nat) :
+    ∀ (ss : List TimeSeries) (i : Nat),
+      (∀ s ∈ ss, msDomain (s.pts.map (·.1)) = true ∧ (s.pts.length : Int) ≤ 1125899906842624) →
+      ∃ sels, SelectedAll th ss sels ∧ rowsFrom store th n i ss = .ok (rowsOfSel n i sels) := by
+  intro ss
+  induction ss with
+  | nil => intro i _; exact ⟨[], trivial, rfl⟩
+  | cons s rest ih =>
+    intro i hd
+    obtain ⟨sels, hsel, hrows⟩ := ih (i+1) (fun s' hs' => hd s' (List.mem_cons_of_mem _ hs'))
+    obtain ⟨hdom, hlen50⟩ := hd s (by simp)
+    have hp : seriesPoints store s = toPoints s := by
+      rw [points_of_lossless_store store hl s hdom]; rfl
+    have hlen : ((toPoints s).length : Int) = (s.pts.length : Int) := by simp [toPoints]
+    have hds : ∃ sel, downsample (s.pts.length : Int) th (toPoints s) = .ok sel ∧ Selected th (toPoints s) sel := by
+      by_cases hid : th ≥ (s.pts.length : Int) ∨ th = 0
+      · refine ⟨toPoints s, downsample_identity _ th _ hlen hid, ?_⟩
+        unfold Selected
+        have : th = 0 ∨ th ≥ ((toPoints s).length : Int) := by rw [hlen]; omega
+        rw [if_pos this]
+      · obtain ⟨out, ho, h1, h2, h3, h4⟩ := downsample_exact _ th (toPoints s) hlen (by omega) (by omega) hlen50
+        refine ⟨out, ho, ?_⟩
+        unfold Selected
+        have : ¬ (th = 0 ∨ th ≥ ((toPoints s).length : Int)) := by rw [hlen]; omega
+        rw [if_neg this]
+        exact ⟨h1, h2, h3, h4⟩
+    obtain ⟨sel, hsd, hsl⟩ := hds
+    refine ⟨sel :: sels, ⟨hsl, hsel⟩, ?_⟩
+    unfold rowsFrom
+    rw [hp, hsd, hrows]
+    rfl
+
+/--
+**Both sentences of the property, end to end, as one theorem** (store inside its limits; series
+of at most 2^50 points; threshold 0 or ≥ 3): for results presented in any arrival order
+`Plot.data` succeeds; its rows are sorted by x and are — up to the order of rows with equal x —
+the NaN-padded rows of one selection `sel` per per-attack label series (the series being exactly
+the (attack, label) pairs that occur, in `attack+label` order), where for a series longer than
+the threshold `sel` has exactly `threshold` points, is a sublist of the series' points and
+contains its first and last point, and otherwise (also with threshold 0) `sel` is all points of
+the series: one point per result at (seconds since the attack's first request at ms resolution,
+latency in ms).
+-/
+theorem plot_downsampled_end_to_end (canon : Bytes → List Result) (rs : List Result)
+    (hc : ∀ a, Canon a (canon a))
+    (hperm : ∀ a, (rs.filter (fun r => r.attack == a)).Perm (canon a))
+    (store : Store) (hl : Lossless store)
+    (hdom : ∀ a l, msDomain ((specPts (t0 (canon a)) (canon a) l).map (·.1)) = true)
+    (hsize : ∀ a, ((canon a).length : Int) ≤ 1125899906842624)
+    (th : Int) (hth : th = 0 ∨ 3 ≤ th) :
+    ∃ p rows labels sels, Plot.addAll [] rs = .ok p ∧ Plot.data store p th = .ok (rows, labels) ∧
+      rows.Pairwise (fun a b => rowLt b a = false) ∧
+      SelectedAll th (allSeries p) sels ∧
+      rows.Perm (rowsOfSel (allSeries p).length 0 sels) ∧
+      labels = dataLabels (allSeries p) ∧
+      (∀ s, s ∈ allSeries p ↔
+        ∃ a l, (∃ r ∈ canon a, r.label = l) ∧ s = specSeries a (t0 (canon a)) (canon a) l) := by
+  obtain ⟨p, hp, hser⟩ := arrival_order_irrelevant canon rs hc hperm
+  obtain ⟨hmem, _⟩ := series_shown_are_the_label_series rs p hp
+  have hiff : ∀ s, s ∈ allSeries p ↔
+      ∃ a l, (∃ r ∈ canon a, r.label = l) ∧ s = specSeries a (t0 (canon a)) (canon a) l := by
+    intro s
+    rw [hmem s]
+    constructor
+    · rintro ⟨a, l, h⟩
+      rw [hser a l] at h
+      by_cases hex : ∃ r ∈ canon a, r.label = l
+      · rw [if_pos hex] at h; cases h; exact ⟨a, l, hex, rfl⟩
+      · rw [if_neg hex] at h; cases h
+    · rintro ⟨a, l, hex, hs⟩
+      exact ⟨a, l, by rw [hser a l, if_pos hex, hs]⟩
+  obtain ⟨sels, hsel, hrows⟩ := aux_rows_selected store hl th hth (allSeries p).length (allSeries p) 0 (by
+    intro s hs
+    obtain ⟨a, l, _, hs'⟩ := (hiff s).mp hs
+    rw [hs']
+    refine ⟨hdom a l, ?_⟩
+    have h1 : (specPts (t0 (canon a)) (canon a) l).length ≤ (canon a).length := by
+      unfold specPts; rw [List.length_map]; exact List.length_filter_le _ _
+    have := hsize a
+    show ((specPts (t0 (canon a)) (canon a) l).length : Int) ≤ _
+    omega)
+  have hdata : Plot.data store p th = .ok (sortBy rowLt (rowsOfSel (allSeries p).length 0 sels), dataLabels (allSeries p)) := by
+    unfold Plot.data
+    simp only [hrows]
+  refine ⟨p, _, _, sels, hp, hdata, rows_sorted_by_x store p th _ _ hdata, hsel,
+    Vegeta.Proofs.PlotSort.sortBy_perm rowLt _, rfl, hiff⟩
+
 /-! ### source facts binding the store model to lib/plot/timeseries.go (regenerated every run) -/
 
 /-- `timeSeries.add` creates the store lazily from the first time stamp
